@@ -75,6 +75,8 @@ class Gen:
                     return ['Set', True, [['T', 'T', [['[', ['Str', 'b']]]]]] if i == 0 else ['Set', True, [['Lit', i]]]     # one element: no set order to compare
                 return ['T', 'T', [['[', ['Str', 'b']]]] if i == 0 else ['Lit', i]
             return ['Dict', False, [[key(i), self.literal(depth - 1)] for i in range(r.randint(0, 2))]]
+        if r.random() < 0.25:
+            return ['Set', r.random() < 0.5, []]          # an empty set() / frozenset() literal: still rebuilt per evaluation
         return ['Set', r.random() < 0.5, [r.choice([['Lit', 1], ['Str', 'a'], ['T', 'T', [['[', ['Str', 'b']]]]])]]
 
     def arg_case(self):
